@@ -273,7 +273,8 @@ def sym_payload(H, m, pfx="pl.", variant=None):
     if isinstance(m, SpectraVoice):
         # enum-typed array: one element case-split at a time
         i = variant if isinstance(variant, int) else 0
-        m.harmonic_types.values[i] = H.enum(f"{pfx}harmonic_types[{i}]", SpectraVoice.HarmonicType)
+        if variant != "noenum":
+            m.harmonic_types.values[i] = H.enum(f"{pfx}harmonic_types[{i}]", SpectraVoice.HarmonicType)
         for h in m.harmonics:
             h._freq_hz = m.harmonic_freqs.values[h.index]
             h._volume = m.harmonic_volumes.values[h.index]
